@@ -26,10 +26,15 @@ type built struct {
 	values []func(i int) // application-side value changes
 }
 
+// structural "salt": the same salt gives the same structure; different salts give many different
+// attribute databases (and therefore many different structure hashes) per variant
+var structureSalt int
+
 func buildVariant(v int) built {
 	info := accessory.Info{Name: "C20 Accessory", SerialNumber: "S", Manufacturer: "M", Model: "X", FirmwareRevision: "1.0"}
 	bridge := accessory.NewBridge(info)
 	bulb := accessory.NewColoredLightbulb(accessory.Info{Name: "bulb"})
+	bulb.Lightbulb.Hue.SetMaxValue(float64(300 + structureSalt)) // declared maximum is part of the structure
 	b := built{first: bridge.Accessory, rest: []*accessory.Accessory{bulb.Accessory}}
 	b.values = append(b.values,
 		func(i int) { bulb.Lightbulb.On.SetValue(i%2 == 0) },
@@ -196,6 +201,7 @@ func TestC20History(t *testing.T) {
 		defer os.RemoveAll(w.dir)
 		defer w.stop()
 		note := func(s string) { w.hist = append(w.hist, s) }
+		structureSalt = rapid.IntRange(0, 400).Draw(t, "structure-salt")
 		v0 := rapid.IntRange(0, 5).Draw(t, "variant")
 		note(fmt.Sprintf("start(variant %d)", v0))
 		hfail(t, w, w.start(v0))
